@@ -145,7 +145,7 @@ def molecules(ctx):
     rng = ctx.rng
     out = list(molgen.handmade())
     out += [(t, molgen.parse(t)) for t in SYMMETRIC + STEREO_PAIRS + ISOTOPES + EXPLICIT_H_STEREO + ez_catalogue() + OLIGOMERS
-            + oligomers(rng, 30 if ctx.quick else 200) if molgen.parse(t) is not None]
+            + RADICALS + COORDINATED + oligomers(rng, 30 if ctx.quick else 200) if molgen.parse(t) is not None]
     out += molgen.corpus(rng, 300 if ctx.quick else 1500)
     n_small = 5 if ctx.quick else 6
     graphs = [g for k in range(2, n_small + 1) for g in molgen.unlabeled_small_graphs(k)]
@@ -280,8 +280,9 @@ def k_streams(ctx):
             if kind == 'atom-label' and exp.startswith('ok') and exp != real_order(m):
                 kind = 'atom-label+classes-split-by-configuration'
             add('cmorgan', line, exp, line, len(m) >= 2, (vname, kind))
-        # the stored `in_ring` label that Element.__hash__ reads is the structural fact "lies on a cycle" (independent oracle)
-        ring_atoms = set().union(*[comp for comp, _ in ring_systems({n: dict.fromkeys(ms) for n, ms in mol._bonds.items()})] or [set()])
+        # the stored `in_ring` label that Element.__hash__ reads is the structural fact "lies on a cycle of covalent bonds"
+        # (coordinate `~` bonds are not ring bonds for the library; ring perception itself is C06's subject)
+        ring_atoms = set().union(*[comp for comp, _ in ring_systems({n: {m: 1 for m, b in ms.items() if b.order != 8} for n, ms in mol._bonds.items()})] or [set()])
         wrong = [n for n, a in mol._atoms.items() if bool(a.in_ring) != (n in ring_atoms)]
         ctx.count(('in_ring', tuple(xs0 := view_ints(mol))), bool(ring_atoms))
         ctx.dist('in_ring-label:checked')
@@ -742,41 +743,148 @@ def normalise(mol):
     return m
 
 
-def via_histories(rng, mol):
-    """the same structure arrived at through other public-API histories (each ends in the library's own label
-    re-validation): edit round trip, cut out of a mixture, full substructure, transaction"""
+# ---- second descriptions reached through a HISTORY of public-API calls and observations -----------------------------------
+# Each history gets (rng, mol), never touches `mol`, and returns an object that denotes the same structure. Histories are
+# replayable by name + seed (cached state cannot travel in a wire form).
+
+def _touch(rng, c, k=None):
+    """read cached observables in a random order (what a user does between edits: put in a set, print, sort, …)"""
+    obs = [lambda: hash(c), lambda: str(c), lambda: c.smiles_atoms_order, lambda: c.atoms_order, lambda: c._chiral_morgan,
+           lambda: format(c, 'h'), lambda: format(c, '!s'), lambda: c.__format__('', _return_order=True),
+           lambda: c == c.copy(), lambda: {c: 1}, lambda: c.sssr, lambda: c.connected_components]
+    rng.shuffle(obs)
+    for f in obs[:k or rng.randint(1, len(obs))]:
+        f()
+
+
+def h_edit_roundtrip(rng, mol):
+    c = mol.copy()
+    _touch(rng, c)
+    n = c.add_atom('C')
+    _touch(rng, c, 2)
+    c.delete_atom(n)
+    return c
+
+
+def h_union_split(rng, mol):
     from chython import smiles
-    out = []
-    try:
-        c = mol.copy()
-        n = c.add_atom('C')
-        c.delete_atom(n)
-        out.append(('history:add_atom+delete_atom', c))
-    except Exception as e:  # noqa
-        out.append(('history:add_atom+delete_atom', e))
-    try:
-        other = smiles(rng.choice(['O', 'CCO', '[Na+]', 'c1ccccc1']))
-        u = mol.union(other, remap=True)
-        parts = u.split()
-        keep = max(parts, key=len) if len(mol) > len(other) else None
-        if keep is not None and mol.connected_components_count == 1 and len(keep) == len(mol):
-            out.append(('history:union+split', keep))
-    except Exception as e:  # noqa
-        out.append(('history:union+split', e))
-    try:
-        out.append(('history:substructure', mol.substructure(list(mol._atoms))))
-    except Exception as e:  # noqa
-        out.append(('history:substructure', e))
-    try:
-        c = mol.copy()
-        k = next(iter(c._atoms))
-        with c:
-            ch = c._atoms[k].charge
-            c._atoms[k].charge = ch
-        out.append(('history:transaction', c))
-    except Exception as e:  # noqa
-        out.append(('history:transaction', e))
-    return out
+    if mol.connected_components_count != 1:
+        raise LookupError('single-component molecules only')
+    other = smiles(rng.choice(['O', 'CCO', '[Na+]', 'c1ccccc1']))
+    if len(other) >= len(mol):
+        raise LookupError('partner not smaller')
+    u = mol.union(other, remap=True)
+    _touch(rng, u, 3)
+    return max(u.split(), key=len)
+
+
+def h_substructure(rng, mol):
+    c = mol.copy()
+    _touch(rng, c, 3)
+    return c.substructure(list(c._atoms))
+
+
+def h_transaction(rng, mol):
+    c = mol.copy()
+    _touch(rng, c)
+    k = rng.choice(list(c._atoms))
+    with c:
+        ch = c._atoms[k].charge
+        c._atoms[k].charge = ch
+    return c
+
+
+def h_order_first(rng, mol):
+    c = mol.copy()
+    c.smiles_atoms_order  # noqa
+    return c
+
+
+def h_format_order_first(rng, mol):
+    c = mol.copy()
+    c.__format__('', _return_order=True)
+    return c
+
+
+def h_in_reaction_first(rng, mol):
+    from chython import ReactionContainer, smiles
+    c = mol.copy()
+    if rng.random() < 0.5:
+        str(c)
+    r = ReactionContainer([c], [smiles('O')]) if rng.random() < 0.5 else ReactionContainer([smiles('CC')], [c], [c.copy()])
+    str(r)
+    hash(r)
+    return c
+
+
+def h_observe_all(rng, mol):
+    c = mol.copy()
+    _touch(rng, c, 12)
+    _touch(rng, c)
+    return c
+
+
+def h_stepwise_observed_build(rng, mol):
+    """rebuild through the public API — atoms and bonds in random order, then every stereo label through the public setters
+    (`add_atom_stereo`, `add_cis_trans_stereo`) — reading hash/str/orders between the steps"""
+    from chython import MoleculeContainer
+    c = MoleculeContainer()
+    atoms = list(mol._atoms.items())
+    rng.shuffle(atoms)
+    for n, a in atoms:
+        c.add_atom(a.copy(hydrogens=True, stereo=False), n, _skip_calculation=True)
+    bonds = [(n, m, b.order) for n, m, b in mol.bonds()]
+    rng.shuffle(bonds)
+    for n, m, o in bonds:
+        if rng.random() < 0.5:
+            n, m = m, n
+        c.add_bond(n, m, o, _skip_calculation=True)
+    c.fix_structure(recalculate_hydrogens=False)
+    _touch(rng, c)
+    todo = []
+    st, sa, sc = mol.stereogenic_tetrahedrons, mol.stereogenic_allenes, mol.stereogenic_cis_trans
+    for n, a in mol._atoms.items():
+        if a._stereo is None:
+            continue
+        if n in st:
+            env = list(st[n])
+            rng.shuffle(env)
+            todo.append(('atom', n, tuple(env), mol._translate_tetrahedron_sign(n, env)))
+        elif n in sa:
+            e = sa[n]
+            todo.append(('atom', n, (e[0], e[1]), mol._translate_allene_sign(n, e[0], e[1])))
+        else:
+            raise LookupError('label on a non-stereogenic atom')
+    ctc = mol._stereo_cis_trans_centers
+    for (n, m), e in sc.items():
+        i, j = ctc[n]
+        if mol._bonds[i][j]._stereo is not None:
+            todo.append(('bond', (n, m), (e[0], e[1]), mol._translate_cis_trans_sign(n, m, e[0], e[1])))
+    rng.shuffle(todo)
+    for _ in range(len(todo) + 1):
+        rest = []
+        for kind, where, env, mark in todo:
+            try:
+                if kind == 'atom':
+                    c.add_atom_stereo(where, env, mark)
+                else:
+                    c.add_cis_trans_stereo(where[0], where[1], env[0], env[1], mark)
+                _touch(rng, c, rng.randint(1, 3))
+            except Exception:  # noqa  (not recognised as chiral yet: depends on labels still to come)
+                rest.append((kind, where, env, mark))
+        if not rest or len(rest) == len(todo):
+            todo = rest
+            break
+        todo = rest
+    if todo:
+        raise LookupError('labels the public setters refuse')
+    return c
+
+
+HISTORIES = {'edit-roundtrip': h_edit_roundtrip, 'union+split': h_union_split, 'substructure': h_substructure,
+             'transaction': h_transaction, 'order-first': h_order_first, 'format-order-first': h_format_order_first,
+             'in-reaction-first': h_in_reaction_first, 'observe-all': h_observe_all,
+             'stepwise-observed-build': h_stepwise_observed_build}
 
 
 def reread_own(rng, mol):
@@ -922,6 +1030,47 @@ OLIGOMERS = ['CN(C)CCN(C)CCN(C)C', 'FC(F)(F)C(F)(F)C(F)(F)F', 'C[Si](C)(C)O[Si](
              'C[N+](C)(C)CC[N+](C)(C)CC[N+](C)(C)C', 'CB(C)OB(C)OB(C)C', 'CC=CC=CC', 'C=CCC=CC', 'C#CC=CC#C', 'CC#CC(C)C#CC']
 
 
+RADICALS = ['C[CH2] |^1:1|', 'C[O] |^1:1|', 'CC1(C)CCCC(C)(C)N1[O] |^1:10|', '[O]c1ccccc1 |^1:0|', 'C[CH]C |^1:1|',
+            '[CH2]C=C |^1:0|', '[CH2]CC[CH2] |^1:0,3|', 'C[C@H](O)[CH2] |^1:4|', '[13CH2]C(C)C |^1:0|', 'C/C=C/[CH2] |^1:3|',
+            '[Na+].CC(C)([O-])[C](C)C |^1:6|', 'CC(C)[CH]C(C)C |^1:3|', '[CH2]c1ccc(C)cc1 |^1:0|', 'CC([CH2])C |^1:2|']
+
+# symmetric donors / pi systems: a metal (or any substituent) on ONE of two equivalent atoms is then the only difference
+DONORS = ['NCCN', 'c1ccc(nc1)-c1ccccn1', 'C1COCCO1', 'COCCOC', 'CN(C)CCN(C)C', 'C=C', 'OC(=O)c1ccccc1C(=O)O', 'SCCS', 'N#CCC#N',
+          'c1ccncc1', 'CP(C)CCP(C)C', 'OCCO', 'O=C(C)CC(C)=O', 'c1cnccn1', 'NCCNCCN', 'C1CSCCS1', 'CC(=O)[O-]', 'OCC(O)CO',
+          'c1ccc2ncccc2c1', 'N1CCNCC1', 'C#C', 'COC', 'CSC']
+COORDINATED = ['NCCN~[Cu]', 'C1COCCO1~[Li]', 'COCCOC~[Na]', 'CN(C)CCN(C)C~[Li]', 'N1CCN~[Cu]~1', 'Cl[Pt](Cl)(~N)~N', 'C=C~[Pt]',
+               'O=C(C)C=C(C)O~[Fe]', 'c1ccncc1~[Ru]~n1ccccc1', '[Cu]~NCCN~[Cu]', 'OC(=O)c1ccccc1C(=O)O~[Cu]']
+
+
+def attachment_decorations(rng, mol, per_class=2):
+    """desymmetrise: ONE atom of a symmetry class gets a new neighbour through a bond of each kind the library knows —
+    coordinate (order 8) to a metal, single to a halogen (public API recalculates H), and for two-membered or larger
+    classes also the doubly decorated molecule — so that the attachment is the only thing telling the twins apart"""
+    cls, atoms, adj = sym_classes(mol)
+    members = {}
+    for n in mol._atoms:
+        members.setdefault(cls[n], []).append(n)
+    groups = [v for v in members.values() if len(v) >= 2] or list(members.values())
+    rng.shuffle(groups)
+    for grp in groups[:per_class]:
+        n = rng.choice(grp)
+        for sym, order in ((rng.choice(['Cu', 'Li', 'Pt', 'Ru', 'Na', 'Fe', 'Pd', 'Zn']), 8), ('F', 1), ('Cl', 1)):
+            if order == 1 and not (mol._atoms[n]._implicit_hydrogens or 0):
+                continue
+            try:
+                c = mol.copy()
+                k = c.add_atom(sym)
+                c.add_bond(n, k, order)
+                yield f'+{sym}{"~" if order == 8 else "-"}@{n}', c
+                if order == 8 and len(grp) >= 3:   # second metal on another twin: the free ones must still be told apart
+                    m2 = rng.choice([x for x in grp if x != n])
+                    k2 = c.add_atom(sym)
+                    c.add_bond(m2, k2, 8)
+                    yield f'+2{sym}~@{n},{m2}', c.copy()
+            except Exception:  # noqa
+                continue
+
+
 def isotope_decorations(mol, limit=3):
     """label ONE atom of each symmetry class with tabulated isotopes, always including the element's reference isotope
     (the one a writer prints as `[12C]` although it is 'the same' mass number as the unlabelled atom)"""
@@ -1028,7 +1177,7 @@ def shrink(rng, mol, sig, budget=60):
     return (cur, best) if best else None
 
 
-def compare(ctx, name, base, s0, h0, kind, other, detail, mapping=None):
+def compare(ctx, name, base, s0, h0, kind, other, detail, mapping=None, history=None):
     """one relational case: `other` is a second description of the structure `base`."""
     from .. import wire
     try:
@@ -1054,6 +1203,13 @@ def compare(ctx, name, base, s0, h0, kind, other, detail, mapping=None):
     if sig in (KF_COMPONENT, KF_TIE) and (sig, name) not in _state.setdefault('kf_noted', set()) and len(_state['kf_noted']) < 12:
         _state['kf_noted'].add((sig, name))
         ctx.notes.append(f'known finding met in the relational stream ({sig.split("/")[-1]}): {name} [{kind}]: {s0} vs {s1}')
+    if history is not None:
+        ctx.fail(sig.replace('canonical-string-differs', 'after-history-' + history[0]) if s1 != s0 else
+                 'C01/eq-or-hash-disagrees-with-equal-strings/after-history-' + history[0],
+                 f'{kind}: {name}: {s0!r} vs {s1!r}; ==: {eq}; hash equal: {h0 == h1}',
+                 {'kind': 'history', 'history': history[0], 'seed': history[1], 'name': name, 'a': wire.mol_to_ints(base),
+                  'str_a': s0, 'str_b': s1})
+        return False
     shrunk_from = None
     if sig not in (KF_COMPONENT, KF_TIE) and s1 != s0 and not s1.startswith('<') and len(base) > 4 \
             and _state.setdefault('shrinks', 0) < 4 and not any(f.signature == sig for f in ctx.failures):
@@ -1108,10 +1264,18 @@ def relational_molecules(ctx):
     rng = ctx.rng
     out = []
     for s in molgen.HANDMADE + SYMMETRIC + STEREO_PAIRS + ISOTOPES + EXPLICIT_H_STEREO + ez_catalogue() + OLIGOMERS \
-            + RING_JUNCTION_STEREO + oligomers(rng, 50 if ctx.quick else 250):
+            + RING_JUNCTION_STEREO + RADICALS + COORDINATED + DONORS + oligomers(rng, 50 if ctx.quick else 250):
         m = molgen.parse(s)
         if m is not None:
             out.append((s, s, m))
+    # a metal / substituent on ONE of several equivalent atoms
+    dbases = DONORS + [t for t in SYMMETRIC + OLIGOMERS if molgen.parse(t) is not None and len(molgen.parse(t)) <= 20]
+    for t in (DONORS + rng.sample(dbases, 12) if ctx.quick else dbases):
+        m = molgen.parse(t)
+        if m is None:
+            continue
+        for tag, c in attachment_decorations(rng, m, per_class=1 if ctx.quick else 3):
+            out.append((f'{t}{tag}', None, c))
     # one atom of each symmetry class labelled with its reference isotope and with other tabulated isotopes
     bases = [t for t in SYMMETRIC + molgen.HANDMADE if molgen.parse(t) is not None and 2 <= len(molgen.parse(t)) <= 14]
     for t in (rng.sample(bases, 14) if ctx.quick else bases):
@@ -1188,7 +1352,11 @@ def relational(ctx, mols=None, nvar=None):
         if gap:
             ctx.dist('R:filtered:' + gap.split(':')[0])
             continue
-        s0, h0 = describe(base)
+        try:
+            s0, h0 = describe(base)
+        except Exception as e:  # noqa  (e.g. a label left on an atom a decoration made non-stereogenic: not a molecule of the domain)
+            ctx.dist('R:skipped:first-description-raises:' + type(e).__name__)
+            continue
         for r in range(nren):
             try:
                 c, mapping = reorder(rng, base)
@@ -1198,14 +1366,20 @@ def relational(ctx, mols=None, nvar=None):
             ok = compare(ctx, name, base, s0, h0, 'renumber+reinsert', c, sorted(mapping.items())[:12], mapping)
             if ok and r == 0:
                 compare_formats(ctx, name, base, c, mapping)
-        if stereo_elements(base) or rng.random() < 0.2:
-            for hk, m2 in via_histories(rng, base):
-                if isinstance(m2, Exception):
-                    ctx.dist(f'R:skipped:{hk}:{type(m2).__name__}')
-                elif census(m2) == census(base):
-                    compare(ctx, name, base, s0, h0, hk, m2, hk)
+        special = bool(stereo_elements(base)) or base.is_radical or any(b.order == 8 for _, _, b in base.bonds())
+        if special or rng.random() < 0.25:
+            import random as _random
+            for hname in (HISTORIES if special else rng.sample(list(HISTORIES), 3)):
+                seed = rng.randrange(2 ** 31)
+                try:
+                    m2 = HISTORIES[hname](_random.Random(seed), base)
+                except Exception as e:  # noqa
+                    ctx.dist(f'R:skipped:history:{hname}:{type(e).__name__}')
+                    continue
+                if census(m2) == census(base):
+                    compare(ctx, name, base, s0, h0, 'history:' + hname, m2, hname, history=(hname, seed))
                 else:
-                    ctx.dist(f'R:skipped:{hk}:census-differs')
+                    ctx.dist(f'R:skipped:history:{hname}:census-differs')
         try:
             from chython import smiles as _smiles
             m2 = normalise(_smiles(s0))
@@ -1302,12 +1476,16 @@ def search(ctx):
     ctx.notes.append(f'search: {len(first)} distinct molecules from disagreeing K cases, '
                      f'{sum(1 for t in first if t[0] > 0)} of them with implementation classes coarser than an independent refinement')
     first = [(w, None, m) for _, _, w, m in first[:150]]
-    cat = OLIGOMERS + RING_JUNCTION_STEREO + oligomers(ctx.rng, 150) + ISOTOPES + EXPLICIT_H_STEREO + ez_catalogue() + STEREO_PAIRS + SYMMETRIC + molgen.HANDMADE
+    cat = COORDINATED + RADICALS + OLIGOMERS + RING_JUNCTION_STEREO + oligomers(ctx.rng, 150) + ISOTOPES + EXPLICIT_H_STEREO + ez_catalogue() + STEREO_PAIRS + SYMMETRIC + molgen.HANDMADE
     deco = []
     for t in SYMMETRIC + molgen.HANDMADE:
         m = molgen.parse(t)
         if m is not None and 2 <= len(m) <= 16:
             deco += [(f'{t}{tag}', None, c) for tag, c in isotope_decorations(m, limit=4)]
+    for t in DONORS + SYMMETRIC + OLIGOMERS:
+        m = molgen.parse(t)
+        if m is not None and len(m) <= 24:
+            deco += [(f'{t}{tag}', None, c) for tag, c in attachment_decorations(ctx.rng, m, per_class=3)]
     pools = [first, [(s, s, molgen.parse(s)) for s in cat if molgen.parse(s) is not None], deco]
     before = len(ctx.failures)
     for pool in pools:
@@ -1432,6 +1610,20 @@ def probe(inp):
     from .. import wire
     from ..gen import pyx2py
     pyx2py.install()
+    if inp.get('kind') == 'history':
+        import random as _random
+        ref, _ = wire.ints_to_mol(inp['a'], calc=True)
+        sa, ha = str(ref), hash(ref)
+        try:
+            other = HISTORIES[inp['history']](_random.Random(inp['seed']), ref)
+            sb, hb = str(other), hash(other)
+            eq = (ref == other) and (other == ref)
+        except Exception as e:  # noqa
+            return False, f'history {inp["history"]} could not be replayed: {type(e).__name__}: {e}'
+        same = isomorphic(ref, other) and census(ref) == census(other)
+        fails = same and (sa != sb or not eq or ha != hb)
+        return fails, (f'the molecule and the object reached through the public-API history {inp["history"]!r} (seed {inp["seed"]}; '
+                       f'same atoms, bonds and label counts: {same}): str {sa!r} vs {sb!r}; ==: {eq}; hash equal: {ha == hb}')
     if inp.get('kind') == 'two-spellings':
         from chython import smiles
         a, b = normalise(smiles(inp['a'])), normalise(smiles(inp['b']))
